@@ -32,8 +32,8 @@ theorem connectionLost_early (s : St) (hb : s.busName = false) :
   simp [connectionLost, hb, Variant.repaired]
 
 /-- The three passes of `connectionLost` on a ready connection. -/
-def lost1 (s : St) : St := runConnCbs s.dcCallbacks { s with phase := .lost }
-def lost2 (s : St) : St := failCalls (lost1 s).pending { lost1 s with pending := [] }
+def lost1 (s : St) : St := runConnCbs .repaired s.dcCallbacks { s with phase := .lost }
+def lost2 (s : St) : St := failCalls .repaired (lost1 s).pending { lost1 s with pending := [] }
 def lost3 (s : St) : St := runProxies .repaired (lost2 s).registry (lost2 s)
 
 theorem connectionLost_ready_eq (s : St) (hb : s.busName = true) : connectionLost .repaired s = lost3 s := by
